@@ -24,7 +24,9 @@ IsEmpty(g) == g.fam = "empty"
 
 \* token: the model value of output k (0-based) at multi-index p supplied in epoch e
 TokW(d) == <<1, 100, 10000>>
-Tok(p, k, e) == e * 4000000 + k * 1000000 + SumSeq([j \in 1..Len(p) |-> TokW(Len(p))[j] * (p[j] + 1)])
+\* salt: per-scenario permutation of which points carry the large values (0: increasing with the index)
+Tok(p, k, e, salt) == e * 4000000 + k * 1000000
+                      + SumSeq([j \in 1..Len(p) |-> TokW(Len(p))[j] * (IF salt = 0 THEN p[j] + 1 ELSE ((p[j] + 1) * (1 + salt)) % 97)])
 
 Ok(g)  == [g |-> g, r |-> "ok"]
 Inv(g) == [g |-> g, r |-> "invalid_argument"]
